@@ -877,9 +877,14 @@ Section PROC.
       destruct (process main c st) as [[[req st1] main']|] eqn:E1; cbn [bind]; [|discriminate].
       destruct (IHmain _ _ _ _ Hinv E1) as [Gm I1].
       intros [= <- <- <-]. split; [|exact I1].
-      apply good_set_cols; [exact Gm|]. apply patch_col_egood; [apply good_cols, Gm|].
-      intros x Hx. unfold ScansPlanProofs.egood, map_drop_filter in *. cbn [escans flat_map]. rewrite drop_clauses_noselect.
-      cbn [app]. rewrite app_nil_r. exact Hx.
+      assert (Hl : Forall egood (patch_col (s_cols req) "labels" (fun l => map_drop_filter l ps))).
+      { apply patch_col_egood; [apply good_cols, Gm|].
+        intros x Hx. unfold ScansPlanProofs.egood, map_drop_filter in *. cbn [escans flat_map]. rewrite drop_clauses_noselect.
+        cbn [app]. rewrite app_nil_r. exact Hx. }
+      (* the line is re-fingerprinted like a parsed line *)
+      apply good_set_cols; [apply good_set_cols; [exact Gm | exact Hl]|].
+      apply patch_col_egood; [cbn [s_cols set_cols]; exact Hl|].
+      intros x _. apply egood_nil. reflexivity.
     - (* PUnwrapP *)
       destruct (process main c st) as [[[m st1] main']|] eqn:E1; cbn [bind]; [|discriminate].
       destruct (IHmain _ _ _ _ Hinv E1) as [Gm I1].
